@@ -23,6 +23,8 @@ type RuleSet struct {
 
 var registry = map[string]*RuleSet{}
 
+var debugFuncs = map[string]func(p *Prog){}
+
 func register(rs *RuleSet) { registry[rs.Property] = rs }
 
 func main() {
@@ -32,7 +34,19 @@ func main() {
 	verif := flag.String("verif", "/verif", "verif directory (known_findings.txt, evidence/)")
 	list := flag.Bool("list", false, "list properties with rule sets")
 	dump := flag.Bool("dump", false, "print every obligation")
+	dbg := flag.String("debug", "", "developer dumps (taint, ...)")
 	flag.Parse()
+	if *dbg != "" {
+		p, err := Load(LoadConfig{Repo: *repo})
+		if err != nil {
+			fmt.Println(err)
+			os.Exit(2)
+		}
+		if f := debugFuncs[*dbg]; f != nil {
+			f(p)
+		}
+		return
+	}
 	if *list {
 		var ids []string
 		for id := range registry {
